@@ -4,17 +4,18 @@ import P2sh.Model.IoFaults
 
 Model: `P2sh.IoFaults` (each builtin = phases of OS calls answered by an arbitrary fault oracle).
 
-* `os_fault_is_error_object_partial` — for the code as it is: whatever the oracle, the handle state
-  (`Params`) and the arguments, if some OS call made by the builtin fails then the builtin returns
-  `Ok(error object)` for that failure — for every call except the `Excluded` ones;
-* the excluded calls really misbehave: `flush_panics` (`expect`), `pcap_open_rterr` (the error
-  object of `open` becomes the runtime error "unsupported argument"), `write_stdout_panics`
-  (`print!`/`eprint!` on a failing stdout/stderr);
-* `os_fault_is_error_object_fixed` — with the proposed repairs (`program Fixes.all`) the statement holds
-  for all eleven builtins, all arguments, all oracles;
-* `pcap_open_header_fault` — `pcap_open` does turn a failure *after* the open (reading the header)
-  into an error object, also today;
+* `os_fault_is_error_object` — for all eleven builtins (`open read read_line read_to_string write
+  flush pcap_open pcap_stream pcap_read_next pcap_read_all pcap_write`), all arguments and handle
+  kinds, every handle state (`Params`) and every fault oracle: if some OS call made by the builtin
+  fails, the builtin returns `Ok(error object)` carrying a failure the oracle produced — never a
+  panic, never a runtime error;
+* `no_panic` — whatever happens, no builtin call of the model panics;
 * `script_continues` — a call whose outcome is an error object does not end the script.
+
+Each theorem is followed by a closed `example` showing that it is not vacuous.
+
+History: before e9b7dd0 (`flush`: `expect`), 4ce3547 (`pcap_open`: "unsupported argument") and
+13af4ce (`write` to stdout/stderr: `print!`) the first statement failed for those three builtins.
 -/
 namespace P2sh.Props.C22
 set_option linter.unusedSimpArgs false
@@ -73,135 +74,99 @@ theorem runPhases_spec (o : Oracle) (final : Outcome) :
           · exact h2 j (by omega) hj2
         · exact Or.inr h2
 
-/-- every phase of the call reports a failure as an error object -/
-def Conforming (fx : Fixes) (p : Params) (c : Call) : Prop :=
-  ∀ ph ∈ (program fx p c).1, ph.onFault = .errorObject
-
-theorem fault_is_error_object_of_conforming (fx : Fixes) (p : Params) (c : Call) (o : Oracle)
-    (hc : Conforming fx p c) (hf : ∃ i, i < (run fx p c o).2 ∧ ∃ e, o i = .error e) :
-    ∃ e, (run fx p c o).1 = .ok (.errObj e) := by
-  obtain ⟨i, hi, e, he⟩ := hf
-  obtain ⟨_, h⟩ := runPhases_spec o (program fx p c).2 (program fx p c).1 0 hc
-  rcases h with h | h
-  · obtain ⟨d, hd⟩ := h i (Nat.zero_le _) hi
-    rw [he] at hd; cases hd
-  · exact h
-
-/-- the calls whose failure handling is not an error object on the current code -/
-def Excluded : Call → Prop
-  | .flush h => h = .writer ∨ h = .stdout ∨ h = .stderr
-  | .pcapOpen mode => validMode mode = true
-  | .write h packet => (h = .stdout ∨ h = .stderr) ∧ packet = false
-  | _ => False
-
-theorem conforming_of_not_excluded (p : Params) (c : Call) (h : ¬ Excluded c) : Conforming {} p c := by
+/-- every phase of every builtin reports a failure as an error object -/
+theorem conforming (p : Params) (c : Call) : ∀ ph ∈ (program p c).1, ph.onFault = .errorObject := by
   intro ph hph
   cases c with
   | «open» mode => simp only [program] at hph; split at hph <;> simp_all
   | read hd => cases hd <;> simp_all [program]
   | readLine hd => cases hd <;> simp_all [program]
   | readToString hd => cases hd <;> simp_all [program]
-  | write hd packet => cases hd <;> cases packet <;> simp_all [program, Excluded]
-  | flush hd => cases hd <;> simp_all [program, Excluded]
+  | write hd packet => cases hd <;> simp_all [program]
+  | flush hd => cases hd <;> simp_all [program]
   | pcapOpen mode =>
-    simp only [Excluded] at h
     simp only [program] at hph
-    simp_all
-  | pcapStream hd => cases hd <;> simp_all [program]
-  | pcapReadNext hd => cases hd <;> simp_all [program]
-  | pcapReadAll hd => cases hd <;> simp_all [program]
-  | pcapWrite hd => cases hd <;> simp_all [program]
-
-/-- **os_fault_is_error_object (partial)**: on the current code, for every builtin call that is not
-`Excluded`, every handle state and every fault oracle: if an OS call of the builtin fails, the
-builtin returns `Ok(error object)` — never a panic, never a runtime error -/
-theorem os_fault_is_error_object_partial (p : Params) (c : Call) (o : Oracle) (hex : ¬ Excluded c)
-    (hf : ∃ i, i < (run {} p c o).2 ∧ ∃ e, o i = .error e) :
-    ∃ e, (run {} p c o).1 = .ok (.errObj e) :=
-  fault_is_error_object_of_conforming {} p c o (conforming_of_not_excluded p c hex) hf
-
-theorem fixed_conforming (p : Params) (c : Call) : Conforming Fixes.all p c := by
-  intro ph hph
-  cases c with
-  | «open» mode => simp only [program] at hph; split at hph <;> simp_all [Fixes.all]
-  | read hd => cases hd <;> simp_all [program, Fixes.all]
-  | readLine hd => cases hd <;> simp_all [program, Fixes.all]
-  | readToString hd => cases hd <;> simp_all [program, Fixes.all]
-  | write hd packet => cases hd <;> simp_all [program, Fixes.all]
-  | flush hd => cases hd <;> simp_all [program, Fixes.all]
-  | pcapOpen mode =>
-    simp only [program, Fixes.all] at hph
     split at hph
     · split at hph
       · simp at hph; rcases hph with rfl | rfl <;> rfl
       · split at hph <;> simp at hph <;> subst hph <;> rfl
     · simp at hph
-  | pcapStream hd => cases hd <;> simp_all [program, Fixes.all]
-  | pcapReadNext hd => cases hd <;> simp_all [program, Fixes.all]
-  | pcapReadAll hd => cases hd <;> simp_all [program, Fixes.all]
-  | pcapWrite hd => cases hd <;> simp_all [program, Fixes.all]
+  | pcapStream hd => cases hd <;> simp_all [program]
+  | pcapReadNext hd => cases hd <;> simp_all [program]
+  | pcapReadAll hd => cases hd <;> simp_all [program]
+  | pcapWrite hd => cases hd <;> simp_all [program]
 
-/-- **os_fault_is_error_object** for the repaired builtins: all eleven, all arguments, all handle
-states, all fault oracles -/
-theorem os_fault_is_error_object_fixed (p : Params) (c : Call) (o : Oracle)
-    (hf : ∃ i, i < (run Fixes.all p c o).2 ∧ ∃ e, o i = .error e) :
-    ∃ e, (run Fixes.all p c o).1 = .ok (.errObj e) :=
-  fault_is_error_object_of_conforming Fixes.all p c o (fixed_conforming p c) hf
-
-/-- the full statement on the current code -/
-def OsFaultIsErrorObject : Prop :=
-  ∀ (p : Params) (c : Call) (o : Oracle), (∃ i, i < (run {} p c o).2 ∧ ∃ e, o i = .error e) →
-    ∃ e, (run {} p c o).1 = .ok (.errObj e)
-
-def failing (e : IoErr) : Oracle := fun _ => .error e
-
-/-- **witness**: `flush(f)` of a writer whose buffered byte cannot be written (ENOSPC) panics -/
-theorem flush_panics :
-    run {} { osWrites := 1 } (.flush .writer) (failing .enospc) = (.panic "Failed to flush file", 1) := by
-  decide
-
-/-- **witness**: `pcap_open` of a missing file is the runtime error "unsupported argument" -/
-theorem pcap_open_rterr :
-    run {} {} (.pcapOpen "r") (failing .enoent) = (.rterr "unsupported argument", 1) := by
-  decide
-
-/-- **witness**: `write(stdout, byte(10))` on a stdout that cannot be written panics -/
-theorem write_stdout_panics :
-    run {} { osWrites := 1 } (.write .stdout false) (failing .enospc) = (.panic "failed printing to stdout", 1) := by
-  decide
-
-theorem os_fault_is_error_object_false : ¬ OsFaultIsErrorObject := by
-  intro h
-  have := h { osWrites := 1 } (.flush .writer) (failing .enospc) ⟨0, by decide, .enospc, rfl⟩
-  rw [flush_panics] at this
-  obtain ⟨e, he⟩ := this
-  cases he
-
-/-- `pcap_open(path)`: a failure while reading the header (after a successful open) is an error
-object on the current code too -/
-theorem pcap_open_header_fault (p : Params) (o : Oracle) (d : Bytes) (h0 : o 0 = .ok d)
-    (hf : ∃ i, i < (run {} p (.pcapOpen "r") o).2 ∧ ∃ e, o i = .error e) :
-    ∃ e, (run {} p (.pcapOpen "r") o).1 = .ok (.errObj e) := by
-  have hprog : program {} p (.pcapOpen "r") =
-      ([⟨1, fun _ => false, .runtimeError "unsupported argument"⟩, ⟨p.fuel, p.cont, .errorObject⟩], .ok p.final) := by
-    simp [program, validMode]
-  have hfirst : calls o (fun _ => false) 1 0 = (none, 1) := by simp [calls, h0]
-  have hrun : run {} p (.pcapOpen "r") o = runPhases o (.ok p.final) [⟨p.fuel, p.cont, .errorObject⟩] 1 := by
-    simp only [run, hprog, runPhases, hfirst]
-  rw [hrun] at hf ⊢
+/-- **os_fault_is_error_object**: all eleven builtins, all arguments, all handle states, all fault
+oracles — if an OS call of the builtin fails, the builtin returns `Ok(error object)` -/
+theorem os_fault_is_error_object (p : Params) (c : Call) (o : Oracle)
+    (hf : ∃ i, i < (run p c o).2 ∧ ∃ e, o i = .error e) :
+    ∃ e, (run p c o).1 = .ok (.errObj e) := by
   obtain ⟨i, hi, e, he⟩ := hf
-  obtain ⟨_, h⟩ := runPhases_spec o (.ok p.final) [⟨p.fuel, p.cont, .errorObject⟩] 1 (by simp)
+  obtain ⟨_, h⟩ := runPhases_spec o (program p c).2 (program p c).1 0 (conforming p c)
   rcases h with h | h
-  · by_cases hi0 : i = 0
-    · subst hi0; rw [h0] at he; cases he
-    · obtain ⟨d', hd⟩ := h i (by omega) hi
-      rw [he] at hd; cases hd
+  · obtain ⟨d, hd⟩ := h i (Nat.zero_le _) hi
+    rw [he] at hd; cases hd
   · exact h
 
+def failing (e : IoErr) : Oracle := fun _ => .error e
+def failAt (k : Nat) (e : IoErr) : Oracle := fun i => if i = k then .error e else .ok [0]
+
+/-- non-vacuity: the hypothesis is met and the conclusion is the expected error object for the
+three builtins that used to crash, and for a failure in the middle of a read loop -/
+example :
+    run { osWrites := 1 } (.flush .writer) (failing .enospc) = (.ok (.errObj .enospc), 1) ∧
+    run {} (.pcapOpen "r") (failing .enoent) = (.ok (.errObj .enoent), 1) ∧
+    run { osWrites := 1 } (.write .stdout false) (failing .enospc) = (.ok (.errObj .enospc), 1) ∧
+    run { fuel := 5 } (.pcapReadAll .reader) (failAt 2 .eio) = (.ok (.errObj .eio), 3) ∧
+    (∃ i, i < (run { fuel := 5 } (.pcapReadAll .reader) (failAt 2 .eio)).2 ∧ ∃ e, failAt 2 .eio i = .error e) := by
+  refine ⟨by decide, by decide, by decide, by decide, 2, by decide, .eio, rfl⟩
+
+theorem runPhases_no_panic (o : Oracle) (final : Outcome) (hfin : ∀ m, final ≠ .panic m) :
+    ∀ (phs : List Phase) (i : Nat), (∀ ph ∈ phs, ph.onFault = .errorObject) →
+      ∀ m, (runPhases o final phs i).1 ≠ .panic m := by
+  intro phs
+  induction phs with
+  | nil => intro i _ m; simpa [runPhases] using hfin m
+  | cons p ps ih =>
+    intro i hc m
+    have hp : p.onFault = .errorObject := hc p (List.mem_cons_self)
+    simp only [runPhases]
+    cases h : calls o p.cont p.fuel i with
+    | mk r n =>
+      cases r with
+      | some e => simp [hp, OnFault.outcome]
+      | none => exact ih n (fun ph h => hc ph (List.mem_cons_of_mem _ h)) m
+
+theorem final_no_panic (p : Params) (c : Call) : ∀ m, (program p c).2 ≠ .panic m := by
+  intro m
+  cases c with
+  | «open» mode => simp only [program]; split <;> simp
+  | read hd => cases hd <;> simp [program]
+  | readLine hd => cases hd <;> simp [program]
+  | readToString hd => cases hd <;> simp [program]
+  | write hd packet => cases hd <;> simp [program]
+  | flush hd => cases hd <;> simp [program]
+  | pcapOpen mode => simp only [program]; split <;> (try split) <;> (try split) <;> simp
+  | pcapStream hd => cases hd <;> simp [program]
+  | pcapReadNext hd => cases hd <;> simp [program]
+  | pcapReadAll hd => cases hd <;> simp [program]
+  | pcapWrite hd => cases hd <;> simp [program]
+
+/-- **no panic**: no call of any of the eleven builtins panics, whatever the oracle answers -/
+theorem no_panic (p : Params) (c : Call) (o : Oracle) : ∀ m, (run p c o).1 ≠ .panic m :=
+  runPhases_no_panic o _ (final_no_panic p c) _ 0 (conforming p c)
+
+/-- non-vacuity: a wrong argument is still a runtime error (allowed: it is no OS failure) -/
+example : run {} (.flush .reader) (failing .eio) = (.rterr "cannot flush this handle", 0) := by decide
+
 /-- an error object does not end the script: the calls after it are still made -/
-theorem script_continues (fx : Fixes) (p : Params) (c : Call) (o : Oracle) (e : IoErr)
-    (rest : List (Params × Call × Oracle)) (h : (run fx p c o).1 = .ok (.errObj e)) :
-    runScript fx ((p, c, o) :: rest) = .ok (.errObj e) :: runScript fx rest := by
+theorem script_continues (p : Params) (c : Call) (o : Oracle) (e : IoErr)
+    (rest : List (Params × Call × Oracle)) (h : (run p c o).1 = .ok (.errObj e)) :
+    runScript ((p, c, o) :: rest) = .ok (.errObj e) :: runScript rest := by
   simp [runScript, h]
+
+/-- non-vacuity: a failing `pcap_open` followed by a failing `flush`: both reported, the script goes on -/
+example : runScript [({}, .pcapOpen "r", failing .enoent), ({ osWrites := 1 }, .flush .stdout, failing .enospc)]
+    = [.ok (.errObj .enoent), .ok (.errObj .enospc)] := by decide
 
 end P2sh.Props.C22
